@@ -982,8 +982,8 @@ theorem noByteLit_of_no_0x (V : Vocab) (s : Str) (h : ¬ Occurs [60, 48, 120] s)
 
 /-- **SentencePiece round trip with guards on the TEXT only**, for the vocabulary the code builds: valid code points, no
     U+2581 (necessary: `spm_sep_witness`), no `<0x` — the vocabulary conditions (`hbt`, `hsep`, `hshape`, no panic, no empty
-    special, scores) are decidable facts about the data (discharged by `decide +kernel` for `spmData` below, and for the
-    driver's `spm` vocabulary by `Tie.C20.spm_synth_vocabulary_hypotheses`). -/
+    special, scores) are decidable facts about the data (discharged by `decide +kernel` for `spmData` below: `spmData_roundtrip`;
+    the driver evaluates the same three conditions on its own vocabularies before it applies the round-trip monitor). -/
 theorem concrete_spm_roundtrip_text_guards (sk : Bool) (D : VocabData) (sps : List Str)
     (hsp : D.specialStrings sk = some sps) (hne : [] ∉ sps) (hsc : D.ScoresOk)
     (hbt : ∀ b, b < 256 → byteTok b ∈ D.values) (hsep : [sepRune] ∈ D.values)
